@@ -270,6 +270,10 @@ def run(ctx):
     check_lineiterator_lifo(ctx, "R6")
     ctx.rule("R11", "only LineIterator reads the file behind it", "lines read from the raw file handle are not counted: every later LoadError names a line that was passed long ago")
     check_file_handle_owner(ctx, "R11")
+    ctx.rule("R12", "a format that cannot do what is asked is reported as FileFormatError by the selection step (decision table, evaluated)", "load_many('x.cube'): the missing attribute surfaces inside the loader funnel as `LoadError: Uncaught exception`, dump_* leak AttributeError")
+    from .c17 import check_selection_table
+
+    check_selection_table(ctx, "R12", which=("format",))
 
 
 #: whole-document formats that hand the raw file to a parser of their own before any line is consumed
